@@ -9,5 +9,5 @@ for d in /tmp/wt/*/_seeded/*/; do
   label="$(basename "$d")"
   prop="$(basename "$(dirname "$(dirname "$d")")" | cut -c1-3)"
   echo "=== $prop $label ($d)"
-  python3 tools/seeded.py "$prop" "${d%/}" "$label" --tier "$tier" 2>&1 | grep -E "exit|valid:|DOES NOT|refusing"
+  python3 tools/seeded.py "$prop" "${d%/}" "$label" --tier "$tier" --escalate 2>&1 | grep -E "exit|valid:|DOES NOT|refusing"
 done
